@@ -222,3 +222,137 @@ Proof.
   apply Hne. eapply (R_parent_unique t g HR); eauto.
 Qed.
 End Links.
+
+(** ---- sublists ---- *)
+Inductive sublist {A} : list A -> list A -> Prop :=
+| sl_nil : sublist [] []
+| sl_skip x l1 l2 : sublist l1 l2 -> sublist l1 (x :: l2)
+| sl_keep x l1 l2 : sublist l1 l2 -> sublist (x :: l1) (x :: l2).
+
+Lemma sublist_refl {A} (l : list A) : sublist l l.
+Proof. induction l; [apply sl_nil|apply sl_keep; auto]. Qed.
+
+Lemma sublist_nil {A} (l : list A) : sublist [] l.
+Proof. induction l; [apply sl_nil|apply sl_skip; auto]. Qed.
+
+Lemma sublist_trans {A} (a b c : list A) : sublist a b -> sublist b c -> sublist a c.
+Proof.
+  intros H1 H2. revert a H1. induction H2 as [|x l1 l2 H2 IH|x l1 l2 H2 IH]; intros a H1.
+  - exact H1.
+  - apply sl_skip. apply IH. exact H1.
+  - inversion H1; subst; [apply sl_skip; apply IH; auto|apply sl_keep; apply IH; auto].
+Qed.
+
+Lemma sublist_In {A} (a b : list A) x : sublist a b -> In x a -> In x b.
+Proof. induction 1; intros Hin; cbn in *; auto. destruct Hin; auto. Qed.
+
+Lemma sublist_app {A} (a1 a2 b1 b2 : list A) : sublist a1 b1 -> sublist a2 b2 -> sublist (a1 ++ a2) (b1 ++ b2).
+Proof. induction 1; intros H2; cbn [app]; [exact H2|apply sl_skip; auto|apply sl_keep; auto]. Qed.
+
+Lemma sublist_app_split {A} (k a b : list A) : sublist k (a ++ b) ->
+  exists ka kb, k = ka ++ kb /\ sublist ka a /\ sublist kb b.
+Proof.
+  revert k. induction a as [|x a IH]; intros k H; cbn [app] in H.
+  - exists [], k. repeat split; auto. apply sl_nil.
+  - inversion H; subst.
+    + destruct (IH _ H2) as (ka & kb & E & A1 & A2). exists ka, kb. repeat split; auto. apply sl_skip; auto.
+    + destruct (IH _ H2) as (ka & kb & E & A1 & A2). exists (x :: ka), kb. subst. repeat split; auto. apply sl_keep; auto.
+Qed.
+
+Lemma sublist_remove1 a l : sublist (remove1 a l) l.
+Proof.
+  induction l as [|x l IH]; cbn [remove1]; [apply sl_nil|].
+  destruct (x =? a); [apply sl_skip; apply sublist_refl|apply sl_keep; exact IH].
+Qed.
+
+(** in a sublist the elements behind an element are among those behind it in the list *)
+Lemma sublist_suffix {A} (P : A -> Prop) (k l : list A) : sublist k l ->
+  (forall l1 a l2, l = l1 ++ a :: l2 -> P a -> Forall P l2) ->
+  forall k1 a k2, k = k1 ++ a :: k2 -> P a -> Forall P k2.
+Proof.
+  induction 1 as [|x k l Hs IH|x k l Hs IH]; intros Hl k1 a k2 E Pa.
+  - destruct k1; discriminate.
+  - apply (IH (fun l1 b l2 El => Hl (x :: l1) b l2 (f_equal (cons x) El)) k1 a k2 E Pa).
+  - destruct k1 as [|y k1]; cbn [app] in E; inversion E; subst.
+    + pose proof (Hl [] a l eq_refl Pa) as Hall. rewrite Forall_forall in *. intros z Hz. apply Hall. eapply sublist_In; eauto.
+    + apply (IH (fun l1 b l2 El => Hl (y :: l1) b l2 (f_equal (cons y) El)) k1 a k2 eq_refl Pa).
+Qed.
+
+(** ---- the forest as mergeScopeDirectives changes it: child lists lose elements and gain elements of [S] at the end ---- *)
+Definition kev (S : N -> Prop) (g g' : ghost) : Prop :=
+  forall p, exists keep app, kids g' p = keep ++ app /\ sublist keep (kids g p) /\ Forall S app.
+
+Lemma kev_refl S g : kev S g g.
+Proof. intros p. exists (kids g p), []. rewrite app_nil_r. repeat split; auto using sublist_refl. Qed.
+
+Lemma kev_trans S g0 g1 g2 : kev S g0 g1 -> kev S g1 g2 -> kev S g0 g2.
+Proof.
+  intros A4 B4 p. destruct (B4 p) as (k2 & a2 & E2 & S2 & F2). destruct (A4 p) as (k1 & a1 & E1 & S1 & F1).
+  rewrite E1 in S2. destruct (sublist_app_split _ _ _ S2) as (ka & kb & E & Ska & Skb). subst k2.
+  exists ka, (kb ++ a2). rewrite E2, <- app_assoc. repeat split; auto.
+  - eapply sublist_trans; eauto.
+  - apply Forall_app. split; auto. rewrite Forall_forall in *. intros z Hz. apply F1. eapply sublist_In; eauto.
+Qed.
+
+Lemma kev_weaken (S S' : N -> Prop) g g' : (forall y, S y -> S' y) -> kev S g g' -> kev S' g g'.
+Proof.
+  intros Hsub A4 p. destruct (A4 p) as (k & apx & E & Sk & F). exists k, apx. repeat split; auto. eapply Forall_impl; eauto.
+Qed.
+
+Lemma kev_remove1 S g g' x : (forall p, kids g' p = remove1 x (kids g p)) -> kev S g g'.
+Proof. intros H p. exists (remove1 x (kids g p)), []. rewrite app_nil_r. split; [apply H|]. split; [apply sublist_remove1|constructor]. Qed.
+
+Record evolve (S : N -> Prop) (g g' : ghost) : Prop := mkEvolve {
+  ev_len : length (g_kids g') = length (g_kids g);
+  ev_live : forall y, glive g' y -> glive g y;
+  ev_keep : forall y, glive g y -> ~ S y -> glive g' y;
+  ev_kids : kev S g g'
+}.
+
+Lemma evolve_refl S g : evolve S g g.
+Proof. constructor; auto. apply kev_refl. Qed.
+
+Lemma evolve_trans S g0 g1 g2 : evolve S g0 g1 -> evolve S g1 g2 -> evolve S g0 g2.
+Proof. intros [A1 A2 A3 A4] [B1 B2 B3 B4]. constructor; [congruence|auto|auto|eapply kev_trans; eauto]. Qed.
+
+Lemma evolve_weaken (S S' : N -> Prop) g g' : (forall y, S y -> S' y) -> evolve S g g' -> evolve S' g g'.
+Proof. intros Hsub [A1 A2 A3 A4]. constructor; auto. eapply kev_weaken; eauto. Qed.
+
+(** what an enclosing set keeps: its elements form suffixes of the child lists, and it is closed under children *)
+Definition suffixes (S : N -> Prop) (g : ghost) : Prop :=
+  forall p l1 a l2, kids g p = l1 ++ a :: l2 -> S a -> Forall S l2.
+
+Lemma app_split_cases {A} (k apx l1 l2 : list A) (a : A) : k ++ apx = l1 ++ a :: l2 ->
+  (exists k2, k = l1 ++ a :: k2 /\ l2 = k2 ++ apx) \/ (exists m, l1 = k ++ m /\ apx = m ++ a :: l2).
+Proof.
+  revert l1. induction k as [|x k IH]; intros l1 Ek; cbn [List.app] in Ek.
+  - right. exists l1. auto.
+  - destruct l1 as [|y l1]; cbn [List.app] in Ek; inversion Ek; subst.
+    + left. exists k. auto.
+    + destruct (IH l1 H1) as [(k2 & E1 & E2)|(m & E1 & E2)]; [left; exists k2; subst; auto|right; exists m; subst; auto].
+Qed.
+
+Lemma kev_suffixes (S T : N -> Prop) g g' : (forall y, S y -> T y) -> kev S g g' -> suffixes T g -> suffixes T g'.
+Proof.
+  intros Hsub Hev Hsuf p l1 a l2 Ek Ta. destruct (Hev p) as (k & apx & E & Sk & F).
+  rewrite E in Ek.
+  assert (Happ : Forall T apx) by (eapply Forall_impl; [|exact F]; auto).
+  destruct (app_split_cases _ _ _ _ _ Ek) as [(k2 & E1 & E2)|(m & E1 & E2)].
+  - subst l2. apply Forall_app. split; [|exact Happ].
+    apply (sublist_suffix T k (kids g p) Sk (Hsuf p) l1 a k2 E1 Ta).
+  - subst apx. apply Forall_app in Happ. destruct Happ as (_ & Happ). inversion Happ; auto.
+Qed.
+
+Lemma kev_closed (S T : N -> Prop) g g' : (forall y, S y -> T y) -> kev S g g' -> closed g T -> closed g' T.
+Proof.
+  intros Hsub Hev Hc y c Ty Hin. destruct (Hev y) as (k & apx & E & Sk & F).
+  rewrite E in Hin. apply in_app_or in Hin. destruct Hin as [Hin|Hin].
+  - apply (Hc y c Ty). eapply sublist_In; eauto.
+  - apply Hsub. rewrite Forall_forall in F. apply F. exact Hin.
+Qed.
+
+Lemma evolve_suffixes (S T : N -> Prop) g g' : (forall y, S y -> T y) -> evolve S g g' -> suffixes T g -> suffixes T g'.
+Proof. intros Hsub Hev. eapply kev_suffixes; [exact Hsub|apply (ev_kids _ _ _ Hev)]. Qed.
+
+Lemma evolve_closed (S T : N -> Prop) g g' : (forall y, S y -> T y) -> evolve S g g' -> closed g T -> closed g' T.
+Proof. intros Hsub Hev. eapply kev_closed; [exact Hsub|apply (ev_kids _ _ _ Hev)]. Qed.
